@@ -147,412 +147,417 @@ def run(ctx):
         return None
 
     # ---------------- R1
-    R = 'C10-R1'
-    t = var('crc32_table')
-    ctx.require(t is not None, 'crc32_table not found')
-    tv = table_values(t)
-    want = crc_table()
-    bad = [i for i in range(256) if tv is None or i >= len(tv) or tv[i] != want[i]]
-    ctx.check(tv is not None and len(tv) == 256 and not bad, R, 'crc32_table', t, '256 entries equal the table of the reflected polynomial 0xEDB88320', 'crc32_table differs from the polynomial 0xEDB88320 at entries %s' % bad[:5])
-    md5 = [f for f in u.func('phosg::MD5::MD5') if len(params_of(f)) == 2][0]
-    sha1 = [f for f in u.func('phosg::SHA1::SHA1') if len(params_of(f)) == 2][0]
-    sha256 = [f for f in u.func('phosg::SHA256::SHA256') if len(params_of(f)) == 2][0]
-    for f in (md5, sha1, sha256):
-        ctx.fn(u.qualname(f))
-    sines = table_values(var('sine_table', md5))
-    wsin = [int(abs(math.sin(i + 1)) * (1 << 32)) & 0xFFFFFFFF for i in range(64)]
-    bad = [i for i in range(64) if sines is None or i >= len(sines) or sines[i] != wsin[i]]
-    ctx.check(not bad, R, 'md5|sine_table', md5, 'floor(2^32 |sin(i+1)|)', 'MD5 sine table differs at %s' % bad[:5])
-    shifts = table_values(var('shifts', md5))
-    wsh = [7, 12, 17, 22] * 4 + [5, 9, 14, 20] * 4 + [4, 11, 16, 23] * 4 + [6, 10, 15, 21] * 4
-    ctx.check(shifts == wsh, R, 'md5|shifts', md5, 'per-round shift amounts', 'MD5 shift table is %s' % shifts)
+    with ctx.section('C10-R1', 'Hash.cc'):
+        R = 'C10-R1'
+        t = var('crc32_table')
+        ctx.require(t is not None, 'crc32_table not found')
+        tv = table_values(t)
+        want = crc_table()
+        bad = [i for i in range(256) if tv is None or i >= len(tv) or tv[i] != want[i]]
+        ctx.check(tv is not None and len(tv) == 256 and not bad, R, 'crc32_table', t, '256 entries equal the table of the reflected polynomial 0xEDB88320', 'crc32_table differs from the polynomial 0xEDB88320 at entries %s' % bad[:5])
+        md5 = [f for f in u.func('phosg::MD5::MD5') if len(params_of(f)) == 2][0]
+        sha1 = [f for f in u.func('phosg::SHA1::SHA1') if len(params_of(f)) == 2][0]
+        sha256 = [f for f in u.func('phosg::SHA256::SHA256') if len(params_of(f)) == 2][0]
+        for f in (md5, sha1, sha256):
+            ctx.fn(u.qualname(f))
+        sines = table_values(var('sine_table', md5))
+        wsin = [int(abs(math.sin(i + 1)) * (1 << 32)) & 0xFFFFFFFF for i in range(64)]
+        bad = [i for i in range(64) if sines is None or i >= len(sines) or sines[i] != wsin[i]]
+        ctx.check(not bad, R, 'md5|sine_table', md5, 'floor(2^32 |sin(i+1)|)', 'MD5 sine table differs at %s' % bad[:5])
+        shifts = table_values(var('shifts', md5))
+        wsh = [7, 12, 17, 22] * 4 + [5, 9, 14, 20] * 4 + [4, 11, 16, 23] * 4 + [6, 10, 15, 21] * 4
+        ctx.check(shifts == wsh, R, 'md5|shifts', md5, 'per-round shift amounts', 'MD5 shift table is %s' % shifts)
 
-    def iv_of(f, names):
-        out = []
-        for nm in names:
-            a = [x for x in walk(body_of(f)) if x.get('kind') == 'BinaryOperator' and x.get('opcode') == '=' and canon(x['inner'][0]) == nm and int_value(x['inner'][1]) is not None]
-            out.append(int_value(a[0]['inner'][1]) & 0xFFFFFFFF if a else None)
-        return out
-    iv4 = [0x67452301, 0xEFCDAB89, 0x98BADCFE, 0x10325476]
-    ctx.check(iv_of(md5, ['this.a0', 'this.b0', 'this.c0', 'this.d0']) == iv4, R, 'md5|iv', md5, 'MD5 IV', 'MD5 IV is %s' % [hex(x) if x is not None else None for x in iv_of(md5, ['this.a0', 'this.b0', 'this.c0', 'this.d0'])])
-    ctx.check(iv_of(sha1, ['this.h[%d]' % i for i in range(5)]) == iv4 + [0xC3D2E1F0], R, 'sha1|iv', sha1, 'SHA-1 IV', 'SHA-1 IV differs')
-    ps = primes(64)
-    w256iv = [frac_root_bits(p, 2) for p in ps[:8]]
-    ctx.check(iv_of(sha256, ['this.h[%d]' % i for i in range(8)]) == w256iv, R, 'sha256|iv', sha256, 'fractional parts of sqrt of the first 8 primes', 'SHA-256 IV differs from the square roots of the first 8 primes')
-    k256 = table_values(var('k', sha256))
-    wk = [frac_root_bits(p, 3) for p in ps]
-    bad = [i for i in range(64) if k256 is None or i >= len(k256) or k256[i] != wk[i]]
-    ctx.check(not bad, R, 'sha256|k', sha256, 'fractional parts of cube roots of the first 64 primes', 'SHA-256 K differs at %s' % bad[:5])
-    k1 = sorted({int_value(x['inner'][1]) & 0xFFFFFFFF for x in walk(body_of(sha1)) if x.get('kind') == 'BinaryOperator' and x.get('opcode') == '=' and canon(x['inner'][0]) == 'k' and int_value(x['inner'][1]) is not None})
-    wk1 = sorted(iroot(n << 60, 2) & 0xFFFFFFFF for n in (2, 3, 5, 10))
-    ctx.check(k1 == wk1, R, 'sha1|k', sha1, 'floor(2^30 sqrt(2,3,5,10))', 'SHA-1 K constants are %s' % [hex(x) for x in k1])
-    fn32 = [f for f in u.func('phosg::fnv1a32') if len(params_of(f)) == 3][0]
-    fn64 = [f for f in u.func('phosg::fnv1a64') if len(params_of(f)) == 3][0]
-    for f, prime, off, nm in ((fn32, 0x01000193, 0x811C9DC5, 'fnv1a32'), (fn64, 0x00000100000001B3, 0xCBF29CE484222325, 'fnv1a64')):
-        ctx.fn('phosg::' + nm)
-        muls = [int_value(x['inner'][1]) for x in walk_deep(body_of(f), u) if x.get('kind') in ('BinaryOperator', 'CompoundAssignOperator') and x.get('opcode') in ('*', '*=')]
-        # (the multiplier's position in the computation is decided by R5; here only the constant, when it is spelled in the function)
-        if muls:
-            ctx.check(all(m == prime for m in muls), R, nm + '|prime', f, 'FNV prime', '%s multiplies by %s' % (nm, [hex(m) if m is not None else None for m in muls]))
-        else:
-            ctx.ok(R, nm + '|prime', f, 'the multiplier is not spelled as a literal here; its value is checked by R5', nontrivial=False)
-        sv = next((v for v in u.by_id.values() if v.get('kind') == 'VarDecl' and v.get('name') == nm.upper() + '_START'), None)
-        val = None
-        if sv is not None:
-            for x in walk(sv):
-                if x is not sv and int_value(x) is not None:
-                    val = int_value(x) & ((1 << 64) - 1)
-                    break
-        ctx.check(val == off, R, nm + '|offset-basis', sv or f, 'FNV offset basis', '%s offset basis is %s' % (nm, hex(val) if val is not None else None))
+        def iv_of(f, names):
+            out = []
+            for nm in names:
+                a = [x for x in walk(body_of(f)) if x.get('kind') == 'BinaryOperator' and x.get('opcode') == '=' and canon(x['inner'][0]) == nm and int_value(x['inner'][1]) is not None]
+                out.append(int_value(a[0]['inner'][1]) & 0xFFFFFFFF if a else None)
+            return out
+        iv4 = [0x67452301, 0xEFCDAB89, 0x98BADCFE, 0x10325476]
+        ctx.check(iv_of(md5, ['this.a0', 'this.b0', 'this.c0', 'this.d0']) == iv4, R, 'md5|iv', md5, 'MD5 IV', 'MD5 IV is %s' % [hex(x) if x is not None else None for x in iv_of(md5, ['this.a0', 'this.b0', 'this.c0', 'this.d0'])])
+        ctx.check(iv_of(sha1, ['this.h[%d]' % i for i in range(5)]) == iv4 + [0xC3D2E1F0], R, 'sha1|iv', sha1, 'SHA-1 IV', 'SHA-1 IV differs')
+        ps = primes(64)
+        w256iv = [frac_root_bits(p, 2) for p in ps[:8]]
+        ctx.check(iv_of(sha256, ['this.h[%d]' % i for i in range(8)]) == w256iv, R, 'sha256|iv', sha256, 'fractional parts of sqrt of the first 8 primes', 'SHA-256 IV differs from the square roots of the first 8 primes')
+        k256 = table_values(var('k', sha256))
+        wk = [frac_root_bits(p, 3) for p in ps]
+        bad = [i for i in range(64) if k256 is None or i >= len(k256) or k256[i] != wk[i]]
+        ctx.check(not bad, R, 'sha256|k', sha256, 'fractional parts of cube roots of the first 64 primes', 'SHA-256 K differs at %s' % bad[:5])
+        k1 = sorted({int_value(x['inner'][1]) & 0xFFFFFFFF for x in walk(body_of(sha1)) if x.get('kind') == 'BinaryOperator' and x.get('opcode') == '=' and canon(x['inner'][0]) == 'k' and int_value(x['inner'][1]) is not None})
+        wk1 = sorted(iroot(n << 60, 2) & 0xFFFFFFFF for n in (2, 3, 5, 10))
+        ctx.check(k1 == wk1, R, 'sha1|k', sha1, 'floor(2^30 sqrt(2,3,5,10))', 'SHA-1 K constants are %s' % [hex(x) for x in k1])
+        fn32 = [f for f in u.func('phosg::fnv1a32') if len(params_of(f)) == 3][0]
+        fn64 = [f for f in u.func('phosg::fnv1a64') if len(params_of(f)) == 3][0]
+        for f, prime, off, nm in ((fn32, 0x01000193, 0x811C9DC5, 'fnv1a32'), (fn64, 0x00000100000001B3, 0xCBF29CE484222325, 'fnv1a64')):
+            ctx.fn('phosg::' + nm)
+            muls = [int_value(x['inner'][1]) for x in walk_deep(body_of(f), u) if x.get('kind') in ('BinaryOperator', 'CompoundAssignOperator') and x.get('opcode') in ('*', '*=')]
+            # (the multiplier's position in the computation is decided by R5; here only the constant, when it is spelled in the function)
+            if muls:
+                ctx.check(all(m == prime for m in muls), R, nm + '|prime', f, 'FNV prime', '%s multiplies by %s' % (nm, [hex(m) if m is not None else None for m in muls]))
+            else:
+                ctx.ok(R, nm + '|prime', f, 'the multiplier is not spelled as a literal here; its value is checked by R5', nontrivial=False)
+            sv = next((v for v in u.by_id.values() if v.get('kind') == 'VarDecl' and v.get('name') == nm.upper() + '_START'), None)
+            val = None
+            if sv is not None:
+                for x in walk(sv):
+                    if x is not sv and int_value(x) is not None:
+                        val = int_value(x) & ((1 << 64) - 1)
+                        break
+            ctx.check(val == off, R, nm + '|offset-basis', sv or f, 'FNV offset basis', '%s offset basis is %s' % (nm, hex(val) if val is not None else None))
 
     # ---------------- R2
-    R = 'C10-R2'
-    F_ = lambda b, c, d: (b & c) | ((1 - b) & d)
-    G_ = lambda b, c, d: (b & d) | (c & (1 - d))
-    H_ = lambda b, c, d: b ^ c ^ d
-    I_ = lambda b, c, d: c ^ (b | (1 - d))
-    MAJ = lambda b, c, d: (b & c) | (b & d) | (c & d)
+    with ctx.section('C10-R2', 'Hash.cc'):
+        R = 'C10-R2'
+        F_ = lambda b, c, d: (b & c) | ((1 - b) & d)
+        G_ = lambda b, c, d: (b & d) | (c & (1 - d))
+        H_ = lambda b, c, d: b ^ c ^ d
+        I_ = lambda b, c, d: c ^ (b | (1 - d))
+        MAJ = lambda b, c, d: (b & c) | (b & d) | (c & d)
 
-    def round_chain(f, kind_var='f'):
-        """[(upper bound, f-expr, other assignments)] from the `if (x < N)` chain inside the round loop"""
-        out = []
-        for lp in walk(body_of(f)):
-            if lp.get('kind') == 'ForStmt':
-                for s in stmts_of(loop_body(lp)):
-                    if s.get('kind') == 'IfStmt':
-                        st = s
-                        res = []
-                        while st is not None and st.get('kind') == 'IfStmt':
-                            cond, then, els = if_parts(st)
-                            r = relation(cond, True)
-                            ub = int_value(r[2]) if r and r[1] == '<' else None
-                            res.append((ub, then))
-                            st = els
-                        if st is not None:
-                            res.append((None, st))
-                        if len(res) == 4 and any(x.get('kind') == 'BinaryOperator' and canon(x['inner'][0]) == kind_var for x in walk(s)):
-                            return lp, res
-        return None, None
-    lp, ch = round_chain(md5)
-    if ch is None:
-        ctx.undecided(R, 'md5|round', md5, 'the MD5 step is not written as an `if (x < 16) ... else if (x < 32) ...` chain assigning f and g: round functions, message schedule and rotation are not decided by this rule')
-    else:
-        ctx.check([c[0] for c in ch] == [16, 32, 48, None], R, 'md5|round-bounds', lp, 'rounds of 16', 'MD5 round boundaries are %s' % [c[0] for c in ch])
-        for i, (spec, nm) in enumerate(((F_, 'F'), (G_, 'G'), (H_, 'H'), (I_, 'I'))):
-            fa = [x for x in walk(ch[i][1]) if x.get('kind') == 'BinaryOperator' and x.get('opcode') == '=' and canon(x['inner'][0]) == 'f']
-            tt = truth_table(I, fa[0]['inner'][1], {'b', 'c', 'd'}) if fa else None
-            ctx.check(tt is not None and tt[1] == tt_of(spec, 3), R, 'md5|%s' % nm, fa[0] if fa else lp, 'round function %s by truth table' % nm, 'MD5 round function %s has truth table %s, expected %s' % (nm, tt[1] if tt else None, tt_of(spec, 3)))
-        # message index schedule
-        gbad = []
-        for x in range(64):
-            rnd = x // 16
-            ga = [y for y in walk(ch[rnd][1]) if y.get('kind') == 'BinaryOperator' and y.get('opcode') == '=' and canon(y['inner'][0]) == 'g']
-            I.ov = {'x': x}
-            v = bv_const(I.eval(ga[0]['inner'][1], {})) if ga else None
-            want_g = [x, (5 * x + 1) % 16, (3 * x + 5) % 16, (7 * x) % 16][rnd]
-            if v is None or (v & 0xFFFFFFFF) != want_g:
-                gbad.append((x, v))
-        ctx.check(not gbad, R, 'md5|message-index', lp, 'g = x, 5x+1, 3x+5, 7x (mod 16)', 'MD5 message index differs: %s' % gbad[:4])
-        # rotation: b + rotl(b_addend, shifts[x])
-        rot = [x for x in walk(loop_body(lp)) if x.get('kind') == 'BinaryOperator' and x.get('opcode') == '|' and 'shifts[x]' in canon(x)]
-        okr = len(rot) == 1
-        if okr:
-            for s_ in (4, 7, 12, 17, 22, 23):
-                I.ov = {'shifts[x]': s_}
-                saved_ov = dict(I.ov)
-                r = rot_amount_with(I, rot[0], 'b_addend', saved_ov)
-                okr = okr and r == s_
-        ctx.check(okr, R, 'md5|rotate', rot[0] if rot else lp, 'left rotation by shifts[x]', 'MD5 rotation is not rotl(b_addend, shifts[x])')
-        taps = [canon(x) for x in walk(loop_body(lp)) if x.get('kind') == 'BinaryOperator' and x.get('opcode') == '=' and canon(x['inner'][0]) in ('a', 'b', 'c', 'd')]
-    # SHA-1
-    lp1, ch1 = round_chain(sha1)
-    if ch1 is None:
-        ctx.undecided(R, 'sha1|round', sha1, 'the SHA-1 step is not written as an `if (x < 20) ...` chain assigning f and k: round functions and constants are not decided by this rule')
-    else:
-        ctx.check([c[0] for c in ch1] == [20, 40, 60, None], R, 'sha1|round-bounds', lp1, 'rounds of 20', 'SHA-1 round boundaries are %s' % [c[0] for c in ch1])
-        for i, (spec, nm) in enumerate(((F_, 'Ch'), (H_, 'Parity'), (MAJ, 'Maj'), (H_, 'Parity2'))):
-            fa = [x for x in walk(ch1[i][1]) if x.get('kind') == 'BinaryOperator' and x.get('opcode') == '=' and canon(x['inner'][0]) == 'f']
-            tt = truth_table(I, fa[0]['inner'][1], {'b', 'c', 'd'}) if fa else None
-            ctx.check(tt is not None and tt[1] == tt_of(spec, 3), R, 'sha1|%s' % nm, fa[0] if fa else lp1, 'round function %s by truth table' % nm, 'SHA-1 round function %s has truth table %s' % (nm, tt[1] if tt else None))
-            ka = [int_value(x['inner'][1]) & 0xFFFFFFFF for x in walk(ch1[i][1]) if x.get('kind') == 'BinaryOperator' and x.get('opcode') == '=' and canon(x['inner'][0]) == 'k']
-            ctx.check(ka == [[0x5A827999, 0x6ED9EBA1, 0x8F1BBCDC, 0xCA62C1D6][i]], R, 'sha1|k-round-%d' % i, ch1[i][1], 'K for round %d' % i, 'SHA-1 round %d uses K=%s' % (i, [hex(k_) for k_ in ka]))
-    rots = {}
-    for x in walk(body_of(sha1)):
-        if x.get('kind') == 'BinaryOperator' and x.get('opcode') == '|':
-            p_ = x.get('_p')
-            while p_ is not None and p_.get('kind') in TRANSPARENT | {'ImplicitCastExpr'}:
-                p_ = p_.get('_p')
-            if p_ is not None and p_.get('kind') == 'BinaryOperator' and p_.get('opcode') == '|':
-                continue
-            lv = sorted(leaves_of(x))
-            if len(lv) == 1 and all(y.get('opcode') in ('|', '<<', '>>', '&') for y in walk(x) if y.get('kind') == 'BinaryOperator'):
-                rots[lv[0]] = rot_amount(I, x, lv[0])
-    ctx.check(rots.get('a') == 5 and rots.get('b') == 30 and rots.get('z') == 1, R, 'sha1|rotations', sha1, 'rotl5(a), rotl30(b), rotl1(schedule)', 'SHA-1 rotations are %s' % rots)
-    zd = var('z', sha1)
-    tapsz = sorted(leaves_of(kids(zd)[-1])) if zd is not None else []
-    ctx.check(tapsz == sorted('extended_fields[(x - %d)]' % t_ for t_ in (3, 8, 14, 16)), R, 'sha1|schedule-taps', zd or sha1, 'w[x-3]^w[x-8]^w[x-14]^w[x-16]', 'SHA-1 schedule taps are %s' % tapsz)
-    # SHA-256
-    def rr_amounts(vd):
-        out = []
-        for c in walk(vd):
-            if c.get('kind') == 'CallExpr' and call_name(c) == 'rotate_right':
-                out.append(('rotr', canon(call_args(c)[0]), int_value(call_args(c)[1])))
-            if c.get('kind') == 'BinaryOperator' and c.get('opcode') == '>>' and int_value(c['inner'][1]) is not None and 'rotate_right' not in canon(c):
-                out.append(('shr', canon(c['inner'][0]), int_value(c['inner'][1])))
-        return sorted(out)
-    rr = [f for f in u.functions if f.get('name') == 'rotate_right']
-    ctx.require(len(rr) == 1, 'rotate_right not found')
-    okrr = True
-    for bits in (2, 6, 7, 11, 13, 17, 18, 19, 22, 25):
-        ps_ = params_of(rr[0])
-        v = I.eval_function(rr[0], {ps_[0]['id']: sym_bv('v', 32, False), ps_[1]['id']: const_bv(bits, 8)})
-        okrr = okrr and v is not None and all(I.cast(v, 'unsigned int').b[i] == ('i', 'v', (i + bits) % 32) for i in range(32))
-    ctx.check(okrr, R, 'sha256|rotate_right', rr[0], 'rotate_right(x, n) is a 32-bit right rotation', 'rotate_right is not a right rotation')
-    sched_loop = None
-    round_loop = None
-    for lp_ in walk(body_of(sha256)):
-        if lp_.get('kind') == 'ForStmt':
-            names = {v.get('name') for v in walk(loop_body(lp_)) if v.get('kind') == 'VarDecl'}
-            if names == {'s0', 's1'}:
-                sched_loop = lp_
-            if {'temp1', 'temp2'} <= names:
-                round_loop = lp_
-    ctx.require(sched_loop is not None and round_loop is not None, 'SHA-256 loops not found')
-    s0 = rr_amounts(var('s0', sched_loop))
-    s1 = rr_amounts(var('s1', sched_loop))
-    ctx.check(s0 == sorted([('rotr', 'w[(x - 15)]', 7), ('rotr', 'w[(x - 15)]', 18), ('shr', 'w[(x - 15)]', 3)]), R, 'sha256|sigma0', sched_loop, 'rotr7^rotr18^shr3 of w[x-15]', 'SHA-256 sigma0 is %s' % s0)
-    ctx.check(s1 == sorted([('rotr', 'w[(x - 2)]', 17), ('rotr', 'w[(x - 2)]', 19), ('shr', 'w[(x - 2)]', 10)]), R, 'sha256|sigma1', sched_loop, 'rotr17^rotr19^shr10 of w[x-2]', 'SHA-256 sigma1 is %s' % s1)
-    wa = [x for x in walk(loop_body(sched_loop)) if x.get('kind') == 'BinaryOperator' and x.get('opcode') == '=' and canon(x['inner'][0]) == 'w[x]']
-    ctx.check(len(wa) == 1 and nf(wa[0]['inner'][1]) == '(s0 + s1 + w[(x - 16)] + w[(x - 7)])', R,
-              'sha256|schedule', sched_loop, 'w[x] = w[x-16] + s0 + w[x-7] + s1', 'SHA-256 schedule is %s' % (canon(wa[0]['inner'][1]) if wa else None))
-    S1 = rr_amounts(var('s1', round_loop))
-    S0 = rr_amounts(var('s0', round_loop))
-    ctx.check(S1 == sorted(('rotr', 'z[4]', n_) for n_ in (6, 11, 25)) and S0 == sorted(('rotr', 'z[0]', n_) for n_ in (2, 13, 22)), R, 'sha256|Sigma', round_loop, 'Sigma1 = rotr 6,11,25 of e; Sigma0 = rotr 2,13,22 of a', 'SHA-256 Sigma functions are %s / %s' % (S1, S0))
+        def round_chain(f, kind_var='f'):
+            """[(upper bound, f-expr, other assignments)] from the `if (x < N)` chain inside the round loop"""
+            out = []
+            for lp in walk(body_of(f)):
+                if lp.get('kind') == 'ForStmt':
+                    for s in stmts_of(loop_body(lp)):
+                        if s.get('kind') == 'IfStmt':
+                            st = s
+                            res = []
+                            while st is not None and st.get('kind') == 'IfStmt':
+                                cond, then, els = if_parts(st)
+                                r = relation(cond, True)
+                                ub = int_value(r[2]) if r and r[1] == '<' else None
+                                res.append((ub, then))
+                                st = els
+                            if st is not None:
+                                res.append((None, st))
+                            if len(res) == 4 and any(x.get('kind') == 'BinaryOperator' and canon(x['inner'][0]) == kind_var for x in walk(s)):
+                                return lp, res
+            return None, None
+        lp, ch = round_chain(md5)
+        if ch is None:
+            ctx.undecided(R, 'md5|round', md5, 'the MD5 step is not written as an `if (x < 16) ... else if (x < 32) ...` chain assigning f and g: round functions, message schedule and rotation are not decided by this rule')
+        else:
+            ctx.check([c[0] for c in ch] == [16, 32, 48, None], R, 'md5|round-bounds', lp, 'rounds of 16', 'MD5 round boundaries are %s' % [c[0] for c in ch])
+            for i, (spec, nm) in enumerate(((F_, 'F'), (G_, 'G'), (H_, 'H'), (I_, 'I'))):
+                fa = [x for x in walk(ch[i][1]) if x.get('kind') == 'BinaryOperator' and x.get('opcode') == '=' and canon(x['inner'][0]) == 'f']
+                tt = truth_table(I, fa[0]['inner'][1], {'b', 'c', 'd'}) if fa else None
+                ctx.check(tt is not None and tt[1] == tt_of(spec, 3), R, 'md5|%s' % nm, fa[0] if fa else lp, 'round function %s by truth table' % nm, 'MD5 round function %s has truth table %s, expected %s' % (nm, tt[1] if tt else None, tt_of(spec, 3)))
+            # message index schedule
+            gbad = []
+            for x in range(64):
+                rnd = x // 16
+                ga = [y for y in walk(ch[rnd][1]) if y.get('kind') == 'BinaryOperator' and y.get('opcode') == '=' and canon(y['inner'][0]) == 'g']
+                I.ov = {'x': x}
+                v = bv_const(I.eval(ga[0]['inner'][1], {})) if ga else None
+                want_g = [x, (5 * x + 1) % 16, (3 * x + 5) % 16, (7 * x) % 16][rnd]
+                if v is None or (v & 0xFFFFFFFF) != want_g:
+                    gbad.append((x, v))
+            ctx.check(not gbad, R, 'md5|message-index', lp, 'g = x, 5x+1, 3x+5, 7x (mod 16)', 'MD5 message index differs: %s' % gbad[:4])
+            # rotation: b + rotl(b_addend, shifts[x])
+            rot = [x for x in walk(loop_body(lp)) if x.get('kind') == 'BinaryOperator' and x.get('opcode') == '|' and 'shifts[x]' in canon(x)]
+            okr = len(rot) == 1
+            if okr:
+                for s_ in (4, 7, 12, 17, 22, 23):
+                    I.ov = {'shifts[x]': s_}
+                    saved_ov = dict(I.ov)
+                    r = rot_amount_with(I, rot[0], 'b_addend', saved_ov)
+                    okr = okr and r == s_
+            ctx.check(okr, R, 'md5|rotate', rot[0] if rot else lp, 'left rotation by shifts[x]', 'MD5 rotation is not rotl(b_addend, shifts[x])')
+            taps = [canon(x) for x in walk(loop_body(lp)) if x.get('kind') == 'BinaryOperator' and x.get('opcode') == '=' and canon(x['inner'][0]) in ('a', 'b', 'c', 'd')]
+        # SHA-1
+        lp1, ch1 = round_chain(sha1)
+        if ch1 is None:
+            ctx.undecided(R, 'sha1|round', sha1, 'the SHA-1 step is not written as an `if (x < 20) ...` chain assigning f and k: round functions and constants are not decided by this rule')
+        else:
+            ctx.check([c[0] for c in ch1] == [20, 40, 60, None], R, 'sha1|round-bounds', lp1, 'rounds of 20', 'SHA-1 round boundaries are %s' % [c[0] for c in ch1])
+            for i, (spec, nm) in enumerate(((F_, 'Ch'), (H_, 'Parity'), (MAJ, 'Maj'), (H_, 'Parity2'))):
+                fa = [x for x in walk(ch1[i][1]) if x.get('kind') == 'BinaryOperator' and x.get('opcode') == '=' and canon(x['inner'][0]) == 'f']
+                tt = truth_table(I, fa[0]['inner'][1], {'b', 'c', 'd'}) if fa else None
+                ctx.check(tt is not None and tt[1] == tt_of(spec, 3), R, 'sha1|%s' % nm, fa[0] if fa else lp1, 'round function %s by truth table' % nm, 'SHA-1 round function %s has truth table %s' % (nm, tt[1] if tt else None))
+                ka = [int_value(x['inner'][1]) & 0xFFFFFFFF for x in walk(ch1[i][1]) if x.get('kind') == 'BinaryOperator' and x.get('opcode') == '=' and canon(x['inner'][0]) == 'k']
+                ctx.check(ka == [[0x5A827999, 0x6ED9EBA1, 0x8F1BBCDC, 0xCA62C1D6][i]], R, 'sha1|k-round-%d' % i, ch1[i][1], 'K for round %d' % i, 'SHA-1 round %d uses K=%s' % (i, [hex(k_) for k_ in ka]))
+        rots = {}
+        for x in walk(body_of(sha1)):
+            if x.get('kind') == 'BinaryOperator' and x.get('opcode') == '|':
+                p_ = x.get('_p')
+                while p_ is not None and p_.get('kind') in TRANSPARENT | {'ImplicitCastExpr'}:
+                    p_ = p_.get('_p')
+                if p_ is not None and p_.get('kind') == 'BinaryOperator' and p_.get('opcode') == '|':
+                    continue
+                lv = sorted(leaves_of(x))
+                if len(lv) == 1 and all(y.get('opcode') in ('|', '<<', '>>', '&') for y in walk(x) if y.get('kind') == 'BinaryOperator'):
+                    rots[lv[0]] = rot_amount(I, x, lv[0])
+        ctx.check(rots.get('a') == 5 and rots.get('b') == 30 and rots.get('z') == 1, R, 'sha1|rotations', sha1, 'rotl5(a), rotl30(b), rotl1(schedule)', 'SHA-1 rotations are %s' % rots)
+        zd = var('z', sha1)
+        tapsz = sorted(leaves_of(kids(zd)[-1])) if zd is not None else []
+        ctx.check(tapsz == sorted('extended_fields[(x - %d)]' % t_ for t_ in (3, 8, 14, 16)), R, 'sha1|schedule-taps', zd or sha1, 'w[x-3]^w[x-8]^w[x-14]^w[x-16]', 'SHA-1 schedule taps are %s' % tapsz)
+        # SHA-256
+        def rr_amounts(vd):
+            out = []
+            for c in walk(vd):
+                if c.get('kind') == 'CallExpr' and call_name(c) == 'rotate_right':
+                    out.append(('rotr', canon(call_args(c)[0]), int_value(call_args(c)[1])))
+                if c.get('kind') == 'BinaryOperator' and c.get('opcode') == '>>' and int_value(c['inner'][1]) is not None and 'rotate_right' not in canon(c):
+                    out.append(('shr', canon(c['inner'][0]), int_value(c['inner'][1])))
+            return sorted(out)
+        rr = [f for f in u.functions if f.get('name') == 'rotate_right']
+        ctx.require(len(rr) == 1, 'rotate_right not found')
+        okrr = True
+        for bits in (2, 6, 7, 11, 13, 17, 18, 19, 22, 25):
+            ps_ = params_of(rr[0])
+            v = I.eval_function(rr[0], {ps_[0]['id']: sym_bv('v', 32, False), ps_[1]['id']: const_bv(bits, 8)})
+            okrr = okrr and v is not None and all(I.cast(v, 'unsigned int').b[i] == ('i', 'v', (i + bits) % 32) for i in range(32))
+        ctx.check(okrr, R, 'sha256|rotate_right', rr[0], 'rotate_right(x, n) is a 32-bit right rotation', 'rotate_right is not a right rotation')
+        sched_loop = None
+        round_loop = None
+        for lp_ in walk(body_of(sha256)):
+            if lp_.get('kind') == 'ForStmt':
+                names = {v.get('name') for v in walk(loop_body(lp_)) if v.get('kind') == 'VarDecl'}
+                if names == {'s0', 's1'}:
+                    sched_loop = lp_
+                if {'temp1', 'temp2'} <= names:
+                    round_loop = lp_
+        ctx.need(sched_loop is not None and round_loop is not None, 'SHA-256 loops not found')
+        s0 = rr_amounts(var('s0', sched_loop))
+        s1 = rr_amounts(var('s1', sched_loop))
+        ctx.check(s0 == sorted([('rotr', 'w[(x - 15)]', 7), ('rotr', 'w[(x - 15)]', 18), ('shr', 'w[(x - 15)]', 3)]), R, 'sha256|sigma0', sched_loop, 'rotr7^rotr18^shr3 of w[x-15]', 'SHA-256 sigma0 is %s' % s0)
+        ctx.check(s1 == sorted([('rotr', 'w[(x - 2)]', 17), ('rotr', 'w[(x - 2)]', 19), ('shr', 'w[(x - 2)]', 10)]), R, 'sha256|sigma1', sched_loop, 'rotr17^rotr19^shr10 of w[x-2]', 'SHA-256 sigma1 is %s' % s1)
+        wa = [x for x in walk(loop_body(sched_loop)) if x.get('kind') == 'BinaryOperator' and x.get('opcode') == '=' and canon(x['inner'][0]) == 'w[x]']
+        ctx.check(len(wa) == 1 and nf(wa[0]['inner'][1]) == '(s0 + s1 + w[(x - 16)] + w[(x - 7)])', R,
+                  'sha256|schedule', sched_loop, 'w[x] = w[x-16] + s0 + w[x-7] + s1', 'SHA-256 schedule is %s' % (canon(wa[0]['inner'][1]) if wa else None))
+        S1 = rr_amounts(var('s1', round_loop))
+        S0 = rr_amounts(var('s0', round_loop))
+        ctx.check(S1 == sorted(('rotr', 'z[4]', n_) for n_ in (6, 11, 25)) and S0 == sorted(('rotr', 'z[0]', n_) for n_ in (2, 13, 22)), R, 'sha256|Sigma', round_loop, 'Sigma1 = rotr 6,11,25 of e; Sigma0 = rotr 2,13,22 of a', 'SHA-256 Sigma functions are %s / %s' % (S1, S0))
 
-    def bitwise_sub(vd, leafset):
-        best = None
-        for x in walk(vd):
-            if x.get('kind') in ('BinaryOperator',) and x.get('opcode') in ('&', '|', '^') and leaves_of(x) == leafset:
-                if best is None or (x.get('_end', 0) - x.get('_off', 0)) > (best.get('_end', 0) - best.get('_off', 0)):
-                    best = x
-        return best
-    t1, t2 = var('temp1', round_loop), var('temp2', round_loop)
-    chx = bitwise_sub(t1, {'z[4]', 'z[5]', 'z[6]'})
-    mjx = bitwise_sub(t2, {'z[0]', 'z[1]', 'z[2]'})
-    tt = truth_table(I, chx, {'z[4]', 'z[5]', 'z[6]'}) if chx is not None else None
-    ctx.check(tt is not None and tt[1] == tt_of(F_, 3), R, 'sha256|Ch', chx or t1, 'Ch(e,f,g) by truth table', 'SHA-256 Ch has truth table %s' % (tt[1] if tt else None))
-    tt = truth_table(I, mjx, {'z[0]', 'z[1]', 'z[2]'}) if mjx is not None else None
-    ctx.check(tt is not None and tt[1] == tt_of(MAJ, 3), R, 'sha256|Maj', mjx or t2, 'Maj(a,b,c) by truth table', 'SHA-256 Maj has truth table %s' % (tt[1] if tt else None))
-    lt1 = sorted(l for l in leaves_of(kids(t1)[-1]) if l not in ('z[4]', 'z[5]', 'z[6]'))
-    ctx.check(lt1 == sorted(['z[7]', 's1', 'k[x]', 'w[x]']), R, 'sha256|temp1-terms', t1, 'temp1 = h + Sigma1 + Ch + k[x] + w[x]', 'temp1 adds %s' % lt1)
-    rot8 = sorted((canon(x['inner'][0]), nf(x['inner'][1])) for x in walk(loop_body(round_loop)) if x.get('kind') == 'BinaryOperator' and x.get('opcode') == '=' and canon(x['inner'][0]).startswith('z['))
-    want8 = sorted([('z[7]', 'z[6]'), ('z[6]', 'z[5]'), ('z[5]', 'z[4]'), ('z[4]', '(temp1 + z[3])'), ('z[3]', 'z[2]'), ('z[2]', 'z[1]'), ('z[1]', 'z[0]'), ('z[0]', '(temp1 + temp2)')])
-    ctx.check(rot8 == want8, R, 'sha256|state-rotation', round_loop, 'working variables shift down; e = d + temp1; a = temp1 + temp2', 'SHA-256 state update is %s' % rot8)
+        def bitwise_sub(vd, leafset):
+            best = None
+            for x in walk(vd):
+                if x.get('kind') in ('BinaryOperator',) and x.get('opcode') in ('&', '|', '^') and leaves_of(x) == leafset:
+                    if best is None or (x.get('_end', 0) - x.get('_off', 0)) > (best.get('_end', 0) - best.get('_off', 0)):
+                        best = x
+            return best
+        t1, t2 = var('temp1', round_loop), var('temp2', round_loop)
+        chx = bitwise_sub(t1, {'z[4]', 'z[5]', 'z[6]'})
+        mjx = bitwise_sub(t2, {'z[0]', 'z[1]', 'z[2]'})
+        tt = truth_table(I, chx, {'z[4]', 'z[5]', 'z[6]'}) if chx is not None else None
+        ctx.check(tt is not None and tt[1] == tt_of(F_, 3), R, 'sha256|Ch', chx or t1, 'Ch(e,f,g) by truth table', 'SHA-256 Ch has truth table %s' % (tt[1] if tt else None))
+        tt = truth_table(I, mjx, {'z[0]', 'z[1]', 'z[2]'}) if mjx is not None else None
+        ctx.check(tt is not None and tt[1] == tt_of(MAJ, 3), R, 'sha256|Maj', mjx or t2, 'Maj(a,b,c) by truth table', 'SHA-256 Maj has truth table %s' % (tt[1] if tt else None))
+        lt1 = sorted(l for l in leaves_of(kids(t1)[-1]) if l not in ('z[4]', 'z[5]', 'z[6]'))
+        ctx.check(lt1 == sorted(['z[7]', 's1', 'k[x]', 'w[x]']), R, 'sha256|temp1-terms', t1, 'temp1 = h + Sigma1 + Ch + k[x] + w[x]', 'temp1 adds %s' % lt1)
+        rot8 = sorted((canon(x['inner'][0]), nf(x['inner'][1])) for x in walk(loop_body(round_loop)) if x.get('kind') == 'BinaryOperator' and x.get('opcode') == '=' and canon(x['inner'][0]).startswith('z['))
+        want8 = sorted([('z[7]', 'z[6]'), ('z[6]', 'z[5]'), ('z[5]', 'z[4]'), ('z[4]', '(temp1 + z[3])'), ('z[3]', 'z[2]'), ('z[2]', 'z[1]'), ('z[1]', 'z[0]'), ('z[0]', '(temp1 + temp2)')])
+        ctx.check(rot8 == want8, R, 'sha256|state-rotation', round_loop, 'working variables shift down; e = d + temp1; a = temp1 + temp2', 'SHA-256 state update is %s' % rot8)
 
     # ---------------- R3
-    R = 'C10-R3'
-    for f, nm, lenfn in ((md5, 'md5', 'pput_u64l'), (sha1, 'sha1', 'pput_u64b'), (sha256, 'sha256', 'pput_u64b')):
-        body = body_of(f)
-        calls = [c for c in walk(body) if c.get('kind') == 'CXXMemberCallExpr' and canon(member_call_object(c)) == 'w' and enclosing(c, ('LambdaExpr',)) is None]
-        names = [call_name(c) for c in calls]
-        mk = next((c for c in calls if call_name(c) == 'put_u8'), None)
-        ex = next((c for c in calls if call_name(c) == 'extend_to'), None)
-        ln = next((c for c in calls if (call_name(c) or '').startswith('pput_u64')), None)
-        wr = next((c for c in calls if call_name(c) == 'write'), None)
-        if not calls:
-            # the padding is not built through a StringWriter `w` in this function (shared helper, other buffer type)
-            ctx.undecided(R, nm + '|padding', f, 'the Merkle-Damgard padding of %s is not built with the StringWriter idiom this rule models (write / put_u8(0x80) / extend_to / pput_u64)' % nm)
-            continue
-        ok_order = mk is not None and ex is not None and ln is not None and wr is not None and wr['_off'] < mk['_off'] < ex['_off'] < ln['_off']
-        ctx.check(ok_order and int_value(call_args(mk)[0]) == 0x80, R, nm + '|marker-first', mk or f, 'tail, then 0x80, then zero fill, then the length', 'padding order is %s' % names)
-        okx = False
-        why = 'extend_to argument not recognised'
-        if ex is not None:
-            a0 = strip(call_args(ex)[0])
-            fill = int_value(call_args(ex)[1]) if len(call_args(ex)) > 1 and call_args(ex)[1].get('kind') != 'CXXDefaultArgExpr' else 0
-            if a0.get('kind') == 'ConditionalOperator':
-                c_, a_, b_ = a0['inner'][:3]
-                r = relation(c_, True)
-                if r and int_value(a_) == 0x80 and int_value(b_) == 0x40 and fill == 0:
-                    lhs = strip(r[0])
-                    thr = int_value(r[2])
-                    after = False
-                    if lhs.get('kind') == 'CXXMemberCallExpr' and call_name(lhs) == 'size' and canon(member_call_object(lhs)) == 'w' and mk is not None:
-                        after = lhs['_off'] > mk['_off']
-                        src = 'w.size() evaluated %s the marker' % ('after' if after else 'before')
-                    else:
-                        rd = ref_decl(lhs)
-                        vd = u.by_id.get(rd['id']) if rd else None
-                        after = vd is not None and mk is not None and vd.get('_off', 0) > mk['_off'] and 'w.size()' in canon(kids(vd)[-1])
-                        src = 'variable %s defined %s the marker is appended' % (canon(lhs), 'after' if after else 'before')
-                    # size after marker: two blocks iff size_after > 0x38
-                    need = 0x38 if after else 0x37
-                    okx = (r[1] == '>' and thr == need) or (r[1] == '>=' and thr == need + 1)
-                    why = 'the one-or-two-block decision compares %s with `%s 0x%X`; with the marker %s this must be `> 0x%X`: for len %% 64 == %d the length field overwrites the marker / a block is missing' % (src, r[1], thr, 'included' if after else 'not yet included', need, 56 if not after else 55)
-        ctx.check(okx, R, nm + '|block-count-threshold', ex or f, 'extend to 0x80 iff size after the marker > 0x38, else 0x40, zero filled', why)
-        okl = ln is not None and call_name(ln) == lenfn and nf(call_args(ln)[0]) == '(w.size() - 8)' and nf(call_args(ln)[1]) == '(size << 3)'
-        ctx.check(okl, R, nm + '|length-field', ln or f, '%s(w.size() - 8, size << 3)' % lenfn, 'length field is written by %s(%s, %s); expected %s(w.size() - 8, size << 3)' % (call_name(ln) if ln else None, nf(call_args(ln)[0]) if ln else None, nf(call_args(ln)[1]) if ln else None, lenfn))
-        def through_local(n):
-            rd = ref_decl(n)
-            vd = u.by_id.get(rd['id']) if rd and rd.get('kind') == 'VarDecl' else None
-            if vd is not None and kids(vd) and not any(x.get('kind') in ('BinaryOperator', 'CompoundAssignOperator') and x.get('opcode') in ASSIGN_OPS and (ref_decl(x['inner'][0]) or {}).get('id') == vd['id'] for x in walk(body)):
-                return kids(vd)[-1]
-            return n
-        okw = wr is not None and nf(through_local(call_args(wr)[1])) == '(size - processed_offset)' and 'processed_offset' in nf(call_args(wr)[0]) and 'data' in nf(call_args(wr)[0])
-        ctx.check(okw, R, nm + '|tail-copy', wr or f, 'tail = data[processed_offset, size)', 'tail copy is %s' % (canon(wr) if wr else None))
-        loops = [lp_ for lp_ in walk(body) if lp_.get('kind') == 'ForStmt' and enclosing(lp_, ('LambdaExpr',)) is None]
-        bulk = next((lp_ for lp_ in loops if 'processed_offset' in canon(for_parts(lp_)[2])), None)
-        tail = next((lp_ for lp_ in loops if 'w.size()' in canon(for_parts(lp_)[2])), None)
-        okb = bulk is not None and nf(for_parts(bulk)[2]) == '((63 + processed_offset) < size)' and nf(for_parts(bulk)[3]) == '(processed_offset += 64)' and nf(for_parts(bulk)[0]) == '(processed_offset = 0)'
-        ctx.check(okb, R, nm + '|bulk-loop', bulk or f, 'whole blocks while off + 0x3F < size, step 0x40', 'bulk loop is `%s; %s`' % (nf(for_parts(bulk)[2]) if bulk else None, nf(for_parts(bulk)[3]) if bulk else None))
-        okt = tail is not None and nf(for_parts(tail)[2]) == '(z < w.size())' and nf(for_parts(tail)[3]) == '(z += 64)'
-        if okt:
-            pc = [c for c in walk(loop_body(tail)) if c.get('kind') == 'CXXOperatorCallExpr']
-            okt = any('(w.str().data() + z)' in nf(c) or '(z + w.str().data())' in nf(c) for c in pc)
-        ctx.check(okt, R, nm + '|tail-loop', tail or f, 'every 0x40-byte block of the padded tail is processed', 'tail loop changed')
+    with ctx.section('C10-R3', 'Hash.cc'):
+        R = 'C10-R3'
+        for f, nm, lenfn in ((md5, 'md5', 'pput_u64l'), (sha1, 'sha1', 'pput_u64b'), (sha256, 'sha256', 'pput_u64b')):
+            body = body_of(f)
+            calls = [c for c in walk(body) if c.get('kind') == 'CXXMemberCallExpr' and canon(member_call_object(c)) == 'w' and enclosing(c, ('LambdaExpr',)) is None]
+            names = [call_name(c) for c in calls]
+            mk = next((c for c in calls if call_name(c) == 'put_u8'), None)
+            ex = next((c for c in calls if call_name(c) == 'extend_to'), None)
+            ln = next((c for c in calls if (call_name(c) or '').startswith('pput_u64')), None)
+            wr = next((c for c in calls if call_name(c) == 'write'), None)
+            if not calls:
+                # the padding is not built through a StringWriter `w` in this function (shared helper, other buffer type)
+                ctx.undecided(R, nm + '|padding', f, 'the Merkle-Damgard padding of %s is not built with the StringWriter idiom this rule models (write / put_u8(0x80) / extend_to / pput_u64)' % nm)
+                continue
+            ok_order = mk is not None and ex is not None and ln is not None and wr is not None and wr['_off'] < mk['_off'] < ex['_off'] < ln['_off']
+            ctx.check(ok_order and int_value(call_args(mk)[0]) == 0x80, R, nm + '|marker-first', mk or f, 'tail, then 0x80, then zero fill, then the length', 'padding order is %s' % names)
+            okx = False
+            why = 'extend_to argument not recognised'
+            if ex is not None:
+                a0 = strip(call_args(ex)[0])
+                fill = int_value(call_args(ex)[1]) if len(call_args(ex)) > 1 and call_args(ex)[1].get('kind') != 'CXXDefaultArgExpr' else 0
+                if a0.get('kind') == 'ConditionalOperator':
+                    c_, a_, b_ = a0['inner'][:3]
+                    r = relation(c_, True)
+                    if r and int_value(a_) == 0x80 and int_value(b_) == 0x40 and fill == 0:
+                        lhs = strip(r[0])
+                        thr = int_value(r[2])
+                        after = False
+                        if lhs.get('kind') == 'CXXMemberCallExpr' and call_name(lhs) == 'size' and canon(member_call_object(lhs)) == 'w' and mk is not None:
+                            after = lhs['_off'] > mk['_off']
+                            src = 'w.size() evaluated %s the marker' % ('after' if after else 'before')
+                        else:
+                            rd = ref_decl(lhs)
+                            vd = u.by_id.get(rd['id']) if rd else None
+                            after = vd is not None and mk is not None and vd.get('_off', 0) > mk['_off'] and 'w.size()' in canon(kids(vd)[-1])
+                            src = 'variable %s defined %s the marker is appended' % (canon(lhs), 'after' if after else 'before')
+                        # size after marker: two blocks iff size_after > 0x38
+                        need = 0x38 if after else 0x37
+                        okx = (r[1] == '>' and thr == need) or (r[1] == '>=' and thr == need + 1)
+                        why = 'the one-or-two-block decision compares %s with `%s 0x%X`; with the marker %s this must be `> 0x%X`: for len %% 64 == %d the length field overwrites the marker / a block is missing' % (src, r[1], thr, 'included' if after else 'not yet included', need, 56 if not after else 55)
+            ctx.check(okx, R, nm + '|block-count-threshold', ex or f, 'extend to 0x80 iff size after the marker > 0x38, else 0x40, zero filled', why)
+            okl = ln is not None and call_name(ln) == lenfn and nf(call_args(ln)[0]) == '(w.size() - 8)' and nf(call_args(ln)[1]) == '(size << 3)'
+            ctx.check(okl, R, nm + '|length-field', ln or f, '%s(w.size() - 8, size << 3)' % lenfn, 'length field is written by %s(%s, %s); expected %s(w.size() - 8, size << 3)' % (call_name(ln) if ln else None, nf(call_args(ln)[0]) if ln else None, nf(call_args(ln)[1]) if ln else None, lenfn))
+            def through_local(n):
+                rd = ref_decl(n)
+                vd = u.by_id.get(rd['id']) if rd and rd.get('kind') == 'VarDecl' else None
+                if vd is not None and kids(vd) and not any(x.get('kind') in ('BinaryOperator', 'CompoundAssignOperator') and x.get('opcode') in ASSIGN_OPS and (ref_decl(x['inner'][0]) or {}).get('id') == vd['id'] for x in walk(body)):
+                    return kids(vd)[-1]
+                return n
+            okw = wr is not None and nf(through_local(call_args(wr)[1])) == '(size - processed_offset)' and 'processed_offset' in nf(call_args(wr)[0]) and 'data' in nf(call_args(wr)[0])
+            ctx.check(okw, R, nm + '|tail-copy', wr or f, 'tail = data[processed_offset, size)', 'tail copy is %s' % (canon(wr) if wr else None))
+            loops = [lp_ for lp_ in walk(body) if lp_.get('kind') == 'ForStmt' and enclosing(lp_, ('LambdaExpr',)) is None]
+            bulk = next((lp_ for lp_ in loops if 'processed_offset' in canon(for_parts(lp_)[2])), None)
+            tail = next((lp_ for lp_ in loops if 'w.size()' in canon(for_parts(lp_)[2])), None)
+            okb = bulk is not None and nf(for_parts(bulk)[2]) == '((63 + processed_offset) < size)' and nf(for_parts(bulk)[3]) == '(processed_offset += 64)' and nf(for_parts(bulk)[0]) == '(processed_offset = 0)'
+            ctx.check(okb, R, nm + '|bulk-loop', bulk or f, 'whole blocks while off + 0x3F < size, step 0x40', 'bulk loop is `%s; %s`' % (nf(for_parts(bulk)[2]) if bulk else None, nf(for_parts(bulk)[3]) if bulk else None))
+            okt = tail is not None and nf(for_parts(tail)[2]) == '(z < w.size())' and nf(for_parts(tail)[3]) == '(z += 64)'
+            if okt:
+                pc = [c for c in walk(loop_body(tail)) if c.get('kind') == 'CXXOperatorCallExpr']
+                okt = any('(w.str().data() + z)' in nf(c) or '(z + w.str().data())' in nf(c) for c in pc)
+            ctx.check(okt, R, nm + '|tail-loop', tail or f, 'every 0x40-byte block of the padded tail is processed', 'tail loop changed')
 
     # ---------------- R4
-    R = 'C10-R4'
-    for cls, put, nwords, swap in (('MD5', 'put_u32l', 4, True), ('SHA1', 'put_u32b', 5, False), ('SHA256', 'put_u32b', 8, False)):
-        b = u.func('phosg::%s::bin' % cls)[0]
-        calls = [call_name(c) for c in walk(body_of(b)) if c.get('kind') == 'CXXMemberCallExpr' and canon(member_call_object(c)) == 'w' and (call_name(c) or '').startswith('put_')]
-        args = [canon(call_args(c)[0]) for c in walk(body_of(b)) if c.get('kind') == 'CXXMemberCallExpr' and canon(member_call_object(c)) == 'w' and (call_name(c) or '').startswith('put_')]
-        want_args = ['this.a0', 'this.b0', 'this.c0', 'this.d0'] if cls == 'MD5' else ['this.h[%d]' % i for i in range(nwords)]
-        if args != want_args and not (calls and all(c_ == calls[0] for c_ in calls) and len(calls) == nwords):
-            ctx.undecided(R, cls + '|bin', b, '%s::bin() does not write its words with %d explicit w.put_u32x(word) calls (loop or other buffer): byte order not decided by this rule' % (cls, nwords))
-        else:
-            ctx.check(calls == [put] * nwords and args == want_args, R, cls + '|bin', b, '%d words via %s in order' % (nwords, put), '%s::bin() writes %s of %s' % (cls, calls, args))
-        h = u.func('phosg::%s::hex' % cls)[0]
-        pc = [c for c in walk(body_of(h)) if c.get('kind') == 'CallExpr' and call_name(c) == 'string_printf']
-        okh = len(pc) == 1
-        if okh:
-            fmt = string_lit(call_args(pc[0])[0])
-            a = call_args(pc[0])[1:]
-            swapped = [strip(x).get('kind') == 'CallExpr' and call_name(strip(x)) == 'bswap32' for x in a]
-            inner = [canon(call_args(strip(x))[0]) if s_ else canon(x) for x, s_ in zip(a, swapped)]
-            okh = fmt == b'%08X' * nwords and inner == want_args and all(s_ == swap for s_ in swapped)
-        dd = [c for c in walk_deep(body_of(h), u) if c.get('kind') == 'CallExpr' and call_name(c) == 'format_data_string' and
-              not any((ref_decl(y_) or {}).get('name') in ('SKIP_STRINGS', 'HEX_ONLY') for a_ in call_args(c) for y_ in walk(a_))]
-        if dd:
-            ctx.bad(R, cls + '|hex', dd[0], '%s::hex() renders through format_data_string without SKIP_STRINGS: that formatter switches to a quoted-string form whenever every byte is printable, so some digests are not rendered as hex' % cls)
-        elif len(pc) != 1 or string_lit(call_args(pc[0])[0]) != b'%08X' * nwords:
-            # another form: decide it by constant evaluation (E-TABLE) on states whose words have
-            # leading zero nybbles, are zero, or have the top bit set
-            from peval import PEval, Rec, Lit as PLit, Str as PStr, Undecided as PUnd, Fault as PFault
-            pool = [0x00000000, 0x00000001, 0x0ABCDEF0, 0xFFFFFFFF, 0x000A0B0C, 0x80000000, 0x12345678, 0x00F00F00]
-            verdict = None
-            for rot in range(3):
-                ws = [pool[(i_ * 3 + rot) % len(pool)] for i_ in range(nwords)]
-                this = Rec()
-                if cls == 'MD5':
-                    for nm_, w_ in zip(('a0', 'b0', 'c0', 'd0'), ws):
-                        this.f[nm_] = w_
-                    want = ''.join('%08X' % int.from_bytes(w_.to_bytes(4, 'little'), 'big') for w_ in ws)
-                else:
-                    this.f['h'] = PLit(list(ws))
-                    want = ''.join('%08X' % w_ for w_ in ws)
-                pe = PEval([u], max_depth=8)
-                try:
-                    got = pe.call_with(h, [], this=this)
-                except PUnd as e_:
-                    verdict = ('undecided', str(e_))
-                    break
-                except PFault as e_:
-                    verdict = ('bad', 'evaluation faults: %s' % e_)
-                    break
-                gb = bytes(got.b).decode('latin1') if isinstance(got, PStr) else None
-                if gb != want:
-                    verdict = ('bad', 'for the state %s it renders %r; the digest in hex is %r' % (['%08X' % w_ for w_ in ws], gb, want))
-                    break
-            if verdict is None:
-                ctx.ok(R, cls + '|hex', h, 'evaluated on 3 states with leading-zero / zero / top-bit words: %d x 8 hex digits in digest byte order' % nwords)
-            elif verdict[0] == 'bad':
-                ctx.bad(R, cls + '|hex', h, '%s::hex(): %s' % (cls, verdict[1]))
+    with ctx.section('C10-R4', 'Hash.cc'):
+        R = 'C10-R4'
+        for cls, put, nwords, swap in (('MD5', 'put_u32l', 4, True), ('SHA1', 'put_u32b', 5, False), ('SHA256', 'put_u32b', 8, False)):
+            b = u.func('phosg::%s::bin' % cls)[0]
+            calls = [call_name(c) for c in walk(body_of(b)) if c.get('kind') == 'CXXMemberCallExpr' and canon(member_call_object(c)) == 'w' and (call_name(c) or '').startswith('put_')]
+            args = [canon(call_args(c)[0]) for c in walk(body_of(b)) if c.get('kind') == 'CXXMemberCallExpr' and canon(member_call_object(c)) == 'w' and (call_name(c) or '').startswith('put_')]
+            want_args = ['this.a0', 'this.b0', 'this.c0', 'this.d0'] if cls == 'MD5' else ['this.h[%d]' % i for i in range(nwords)]
+            if args != want_args and not (calls and all(c_ == calls[0] for c_ in calls) and len(calls) == nwords):
+                ctx.undecided(R, cls + '|bin', b, '%s::bin() does not write its words with %d explicit w.put_u32x(word) calls (loop or other buffer): byte order not decided by this rule' % (cls, nwords))
             else:
-                ctx.undecided(R, cls + '|hex', h, '%s::hex() is not a single string_printf of %d %%08X fields and could not be evaluated (%s)' % (cls, nwords, verdict[1]))
-        else:
-            ctx.check(okh, R, cls + '|hex', h, '%d x %%08X, %s' % (nwords, 'byte-swapped words (little-endian digest)' if swap else 'words as stored (big-endian digest)'), '%s::hex() rendering changed (byte order of the words must match bin())' % cls)
+                ctx.check(calls == [put] * nwords and args == want_args, R, cls + '|bin', b, '%d words via %s in order' % (nwords, put), '%s::bin() writes %s of %s' % (cls, calls, args))
+            h = u.func('phosg::%s::hex' % cls)[0]
+            pc = [c for c in walk(body_of(h)) if c.get('kind') == 'CallExpr' and call_name(c) == 'string_printf']
+            okh = len(pc) == 1
+            if okh:
+                fmt = string_lit(call_args(pc[0])[0])
+                a = call_args(pc[0])[1:]
+                swapped = [strip(x).get('kind') == 'CallExpr' and call_name(strip(x)) == 'bswap32' for x in a]
+                inner = [canon(call_args(strip(x))[0]) if s_ else canon(x) for x, s_ in zip(a, swapped)]
+                okh = fmt == b'%08X' * nwords and inner == want_args and all(s_ == swap for s_ in swapped)
+            dd = [c for c in walk_deep(body_of(h), u) if c.get('kind') == 'CallExpr' and call_name(c) == 'format_data_string' and
+                  not any((ref_decl(y_) or {}).get('name') in ('SKIP_STRINGS', 'HEX_ONLY') for a_ in call_args(c) for y_ in walk(a_))]
+            if dd:
+                ctx.bad(R, cls + '|hex', dd[0], '%s::hex() renders through format_data_string without SKIP_STRINGS: that formatter switches to a quoted-string form whenever every byte is printable, so some digests are not rendered as hex' % cls)
+            elif len(pc) != 1 or string_lit(call_args(pc[0])[0]) != b'%08X' * nwords:
+                # another form: decide it by constant evaluation (E-TABLE) on states whose words have
+                # leading zero nybbles, are zero, or have the top bit set
+                from peval import PEval, Rec, Lit as PLit, Str as PStr, Undecided as PUnd, Fault as PFault
+                pool = [0x00000000, 0x00000001, 0x0ABCDEF0, 0xFFFFFFFF, 0x000A0B0C, 0x80000000, 0x12345678, 0x00F00F00]
+                verdict = None
+                for rot in range(3):
+                    ws = [pool[(i_ * 3 + rot) % len(pool)] for i_ in range(nwords)]
+                    this = Rec()
+                    if cls == 'MD5':
+                        for nm_, w_ in zip(('a0', 'b0', 'c0', 'd0'), ws):
+                            this.f[nm_] = w_
+                        want = ''.join('%08X' % int.from_bytes(w_.to_bytes(4, 'little'), 'big') for w_ in ws)
+                    else:
+                        this.f['h'] = PLit(list(ws))
+                        want = ''.join('%08X' % w_ for w_ in ws)
+                    pe = PEval([u], max_depth=8)
+                    try:
+                        got = pe.call_with(h, [], this=this)
+                    except PUnd as e_:
+                        verdict = ('undecided', str(e_))
+                        break
+                    except PFault as e_:
+                        verdict = ('bad', 'evaluation faults: %s' % e_)
+                        break
+                    gb = bytes(got.b).decode('latin1') if isinstance(got, PStr) else None
+                    if gb != want:
+                        verdict = ('bad', 'for the state %s it renders %r; the digest in hex is %r' % (['%08X' % w_ for w_ in ws], gb, want))
+                        break
+                if verdict is None:
+                    ctx.ok(R, cls + '|hex', h, 'evaluated on 3 states with leading-zero / zero / top-bit words: %d x 8 hex digits in digest byte order' % nwords)
+                elif verdict[0] == 'bad':
+                    ctx.bad(R, cls + '|hex', h, '%s::hex(): %s' % (cls, verdict[1]))
+                else:
+                    ctx.undecided(R, cls + '|hex', h, '%s::hex() is not a single string_printf of %d %%08X fields and could not be evaluated (%s)' % (cls, nwords, verdict[1]))
+            else:
+                ctx.check(okh, R, cls + '|hex', h, '%d x %%08X, %s' % (nwords, 'byte-swapped words (little-endian digest)' if swap else 'words as stored (big-endian digest)'), '%s::hex() rendering changed (byte order of the words must match bin())' % cls)
 
     # ---------------- R5
-    R = 'C10-R5'
-    # CRC-32 and FNV-1a are decided semantically: the function is executed abstractly on 0..3
-    # symbolic input bytes and a symbolic seed (bit provenance with exact XOR combinations; table
-    # lookups and the multiplication are uninterpreted operations keyed by their operands) and the
-    # result must be, bit for bit, the expression the definition gives.  Loop form, helpers, early
-    # returns for empty input, ~x versus x ^ 0xFFFFFFFF ... make no difference; the seed is symbolic,
-    # so chaining (crc(b, crc(a)) = crc(ab)) is covered by the same comparison.
-    X = BVExec(u)
-    crc = [f for f in u.func('phosg::crc32') if len(params_of(f)) == 3][0]
-    ctx.fn('phosg::crc32')
-    tabv = next((v for v in u.by_id.values() if v.get('kind') == 'VarDecl' and v.get('name') == 'crc32_table' and kids(v)), None)
-    ctx.require(tabv is not None, 'crc32_table not found')
+    with ctx.section('C10-R5', 'Hash.cc'):
+        R = 'C10-R5'
+        # CRC-32 and FNV-1a are decided semantically: the function is executed abstractly on 0..3
+        # symbolic input bytes and a symbolic seed (bit provenance with exact XOR combinations; table
+        # lookups and the multiplication are uninterpreted operations keyed by their operands) and the
+        # result must be, bit for bit, the expression the definition gives.  Loop form, helpers, early
+        # returns for empty input, ~x versus x ^ 0xFFFFFFFF ... make no difference; the seed is symbolic,
+        # so chaining (crc(b, crc(a)) = crc(ab)) is covered by the same comparison.
+        X = BVExec(u)
+        crc = [f for f in u.func('phosg::crc32') if len(params_of(f)) == 3][0]
+        ctx.fn('phosg::crc32')
+        tabv = next((v for v in u.by_id.values() if v.get('kind') == 'VarDecl' and v.get('name') == 'crc32_table' and kids(v)), None)
+        ctx.require(tabv is not None, 'crc32_table not found')
 
-    def mem_byte(i):
-        return [('i', ('mem', 'D', '0', i), k) for k in range(8)]
-    for n in range(0, 4):
-        ps = params_of(crc)
-        key = 'crc32|definition|%d-bytes' % n
-        try:
-            X.notes = []
-            v = X.call(crc, [], {}, bound={ps[0]['id']: Ptr('D', '0', 0), ps[1]['id']: const_bv(n, 64), ps[2]['id']: sym_bv('cs', 32)})
-        except Unsupported as e:
-            ctx.undecided(R, key, crc, 'crc32 is outside the supported statement forms (%s)' % e)
-            continue
-        if not isinstance(v, BV):
-            ctx.undecided(R, key, crc, 'crc32 does not evaluate to a value')
-            continue
-        st = [c_not(('i', 'cs', k)) for k in range(32)]
-        for i in range(n):
-            by = mem_byte(i)
-            idx = tuple(c_xor(st[k], by[k]) for k in range(8))
-            tab = [('i', ('tab', 'crc32_table', 0, idx), k) for k in range(32)]
-            st = [c_xor(st[k + 8] if k + 8 < 32 else 0, tab[k]) for k in range(32)]
-        want = [c_not(c) for c in st]
-        bad = expect_lanes(BV(32, v.b[:32]), want)
-        ctx.check(not bad, R, key, crc, 'crc32 of %d byte(s) with seed cs = ~step^%d(~cs), step(s, b) = (s >> 8) ^ table[(s ^ b) & 0xFF]' % (n, n),
-                  'crc32 over %d byte(s) is not the table-driven CRC of the seed and the bytes: %s%s' % (n, describe_mismatch(bad, 2), ' (an empty chunk must return the seed unchanged)' if n == 0 else ''))
-    for f, nm, W in ((fn32, 'fnv1a32', 32), (fn64, 'fnv1a64', 64)):
-        ctx.fn('phosg::' + nm)
-        prime = {32: 0x01000193, 64: 0x00000100000001B3}[W]
+        def mem_byte(i):
+            return [('i', ('mem', 'D', '0', i), k) for k in range(8)]
         for n in range(0, 4):
-            ps = params_of(f)
-            key = '%s|definition|%d-bytes' % (nm, n)
+            ps = params_of(crc)
+            key = 'crc32|definition|%d-bytes' % n
             try:
                 X.notes = []
-                v = X.call(f, [], {}, bound={ps[0]['id']: Ptr('D', '0', 0), ps[1]['id']: const_bv(n, 64), ps[2]['id']: sym_bv('hash', W)})
+                v = X.call(crc, [], {}, bound={ps[0]['id']: Ptr('D', '0', 0), ps[1]['id']: const_bv(n, 64), ps[2]['id']: sym_bv('cs', 32)})
             except Unsupported as e:
-                ctx.undecided(R, key, f, '%s is outside the supported statement forms (%s)' % (nm, e))
+                ctx.undecided(R, key, crc, 'crc32 is outside the supported statement forms (%s)' % e)
                 continue
             if not isinstance(v, BV):
-                ctx.undecided(R, key, f, '%s does not evaluate to a value' % nm)
+                ctx.undecided(R, key, crc, 'crc32 does not evaluate to a value')
                 continue
-            st = [('i', 'hash', k) for k in range(W)]
+            st = [c_not(('i', 'cs', k)) for k in range(32)]
             for i in range(n):
                 by = mem_byte(i)
-                x_ = [c_xor(st[k], by[k] if k < 8 else 0) for k in range(W)]
-                st = u_op('mul', x_, const_bv(prime, W).b, W)
-            bad = expect_lanes(BV(W, v.b[:W]), st)
-            ctx.check(not bad, R, key, f, '%s of %d byte(s): hash = (hash ^ byte) * prime per byte, unsigned bytes, starting from the caller\'s hash' % (nm, n),
-                      '%s over %d byte(s) is not ((hash ^ b0) * P ^ b1) * P ... with P = 0x%X and zero-extended bytes: %s%s' % (nm, n, prime, describe_mismatch(bad, 2), ' (an empty chunk must return the running hash unchanged)' if n == 0 else ''))
-        so = [g for g in u.func('phosg::' + nm) if len(params_of(g)) == 2][0]
-        calls = [c for c in walk(body_of(so)) if c.get('kind') == 'CallExpr']
-        fwd = [c for c in calls if [nf(a_) for a_ in call_args(c)] == ['data.data()', 'data.size()', 'hash']]
-        okf = len(fwd) == 1 and not any(x.get('kind') in LOOPS for x in walk(body_of(so)))
-        if okf:
-            # the callee must be (or forward to) a function with the definition above: evaluate it the same way on one byte
-            d_ = callee_decl(fwd[0], u)
-            g_ = None
-            if d_ is not None:
-                g_ = d_ if body_of(d_) is not None else next((m for m in u.functions if m.get('mangledName') == d_.get('mangledName') and body_of(m) is not None), None)
-            okf = g_ is not None and len(params_of(g_)) == 3
-            if okf and g_ is not f:
+                idx = tuple(c_xor(st[k], by[k]) for k in range(8))
+                tab = [('i', ('tab', 'crc32_table', 0, idx), k) for k in range(32)]
+                st = [c_xor(st[k + 8] if k + 8 < 32 else 0, tab[k]) for k in range(32)]
+            want = [c_not(c) for c in st]
+            bad = expect_lanes(BV(32, v.b[:32]), want)
+            ctx.check(not bad, R, key, crc, 'crc32 of %d byte(s) with seed cs = ~step^%d(~cs), step(s, b) = (s >> 8) ^ table[(s ^ b) & 0xFF]' % (n, n),
+                      'crc32 over %d byte(s) is not the table-driven CRC of the seed and the bytes: %s%s' % (n, describe_mismatch(bad, 2), ' (an empty chunk must return the seed unchanged)' if n == 0 else ''))
+        for f, nm, W in ((fn32, 'fnv1a32', 32), (fn64, 'fnv1a64', 64)):
+            ctx.fn('phosg::' + nm)
+            prime = {32: 0x01000193, 64: 0x00000100000001B3}[W]
+            for n in range(0, 4):
+                ps = params_of(f)
+                key = '%s|definition|%d-bytes' % (nm, n)
                 try:
-                    v = X.call(g_, [], {}, bound={params_of(g_)[0]['id']: Ptr('D', '0', 0), params_of(g_)[1]['id']: const_bv(1, 64), params_of(g_)[2]['id']: sym_bv('hash', W)})
-                    x_ = [c_xor(('i', 'hash', k), mem_byte(0)[k] if k < 8 else 0) for k in range(W)]
-                    okf = isinstance(v, BV) and not expect_lanes(BV(W, v.b[:W]), u_op('mul', x_, const_bv(prime, W).b, W))
-                except Unsupported:
-                    okf = False
-        ctx.check(okf, R, nm + '|string-overload-forwards', so, 'string overload = the byte-pointer computation on (data(), size(), hash)', 'the std::string overload of %s does not forward (data(), size(), hash) to the byte-pointer computation (its own loop over `char` sign-extends bytes >= 0x80)' % nm)
+                    X.notes = []
+                    v = X.call(f, [], {}, bound={ps[0]['id']: Ptr('D', '0', 0), ps[1]['id']: const_bv(n, 64), ps[2]['id']: sym_bv('hash', W)})
+                except Unsupported as e:
+                    ctx.undecided(R, key, f, '%s is outside the supported statement forms (%s)' % (nm, e))
+                    continue
+                if not isinstance(v, BV):
+                    ctx.undecided(R, key, f, '%s does not evaluate to a value' % nm)
+                    continue
+                st = [('i', 'hash', k) for k in range(W)]
+                for i in range(n):
+                    by = mem_byte(i)
+                    x_ = [c_xor(st[k], by[k] if k < 8 else 0) for k in range(W)]
+                    st = u_op('mul', x_, const_bv(prime, W).b, W)
+                bad = expect_lanes(BV(W, v.b[:W]), st)
+                ctx.check(not bad, R, key, f, '%s of %d byte(s): hash = (hash ^ byte) * prime per byte, unsigned bytes, starting from the caller\'s hash' % (nm, n),
+                          '%s over %d byte(s) is not ((hash ^ b0) * P ^ b1) * P ... with P = 0x%X and zero-extended bytes: %s%s' % (nm, n, prime, describe_mismatch(bad, 2), ' (an empty chunk must return the running hash unchanged)' if n == 0 else ''))
+            so = [g for g in u.func('phosg::' + nm) if len(params_of(g)) == 2][0]
+            calls = [c for c in walk(body_of(so)) if c.get('kind') == 'CallExpr']
+            fwd = [c for c in calls if [nf(a_) for a_ in call_args(c)] == ['data.data()', 'data.size()', 'hash']]
+            okf = len(fwd) == 1 and not any(x.get('kind') in LOOPS for x in walk(body_of(so)))
+            if okf:
+                # the callee must be (or forward to) a function with the definition above: evaluate it the same way on one byte
+                d_ = callee_decl(fwd[0], u)
+                g_ = None
+                if d_ is not None:
+                    g_ = d_ if body_of(d_) is not None else next((m for m in u.functions if m.get('mangledName') == d_.get('mangledName') and body_of(m) is not None), None)
+                okf = g_ is not None and len(params_of(g_)) == 3
+                if okf and g_ is not f:
+                    try:
+                        v = X.call(g_, [], {}, bound={params_of(g_)[0]['id']: Ptr('D', '0', 0), params_of(g_)[1]['id']: const_bv(1, 64), params_of(g_)[2]['id']: sym_bv('hash', W)})
+                        x_ = [c_xor(('i', 'hash', k), mem_byte(0)[k] if k < 8 else 0) for k in range(W)]
+                        okf = isinstance(v, BV) and not expect_lanes(BV(W, v.b[:W]), u_op('mul', x_, const_bv(prime, W).b, W))
+                    except Unsupported:
+                        okf = False
+            ctx.check(okf, R, nm + '|string-overload-forwards', so, 'string overload = the byte-pointer computation on (data(), size(), hash)', 'the std::string overload of %s does not forward (data(), size(), hash) to the byte-pointer computation (its own loop over `char` sign-extends bytes >= 0x80)' % nm)
     ctx.note('Not decided: digest equality for all inputs (the block functions\' full data flow).')
 
 
